@@ -16,7 +16,7 @@ from ..ratinterp import Rat
 from .C06 import fold
 
 TOPO = "typhon/topography.py"
-EXPECT = {"C20.tiles": 3, "C20.overlap": 2, "C20.consts": 4, "C20.cache": 2, "C20.orient": 5, "C20.cover": 2, "C20.lonnorm": 2}
+EXPECT = {"C20.tiles": 3, "C20.overlap": 2, "C20.consts": 4, "C20.cache": 2, "C20.orient": 4, "C20.cover": 2, "C20.lonnorm": 2}
 
 
 def _tiles(ctx):
@@ -80,10 +80,49 @@ def rule_overlap(ctx):
     ctx.ob("_do_overlap", bad is None, "return %s" % norm(f.body[-1].value), "both axes: max(lo) < min(hi) (touching edges do not overlap)", node=f.node, func=f, witness=bad)
     g = ctx.func(TOPO, "SRTM30.get_tiles")
     c = calls_in(g.node, "_do_overlap")
-    ok = bool(c) and [norm(a).replace(" ", "") for a in c[0].args] == ["(lat_min,lon_min,lat_max,lon_max)", "(lat_min_1,lon_min_1,lat_max_1,lon_max_1)"]
-    un = [st for st in walk_no_nested(g.node) if isinstance(st, ast.Assign) and isinstance(st.targets[0], ast.Tuple) and norm(st.value) == "t"]
-    ok = ok and bool(un) and [norm(e) for e in un[0].targets[0].elts] == ["name", "lat_min_1", "lon_min_1", "lat_max_1", "lon_max_1"]
-    ctx.ob("SRTM30.get_tiles.call", ok, "%s" % (norm(c[0]) if c else None), "rectangles passed as (lat_min, lon_min, lat_max, lon_max), the tile row unpacked in table order", node=c[0] if c else g.node, func=g)
+    if len(c) != 1 or len(c[0].args) != 2:
+        raise AnalysisError("get_tiles: expected one _do_overlap(roi, tile bounds) call")
+    gflow = Flow(g)
+    roi = gflow.resolve(c[0].args[0], at=c[0], depth=1, stop=tuple(g.params))
+    ok_roi = isinstance(roi, ast.Tuple) and [norm(e) for e in roi.elts] == [g.params[0], g.params[1], g.params[2], g.params[3]]
+    # the second rectangle: elements 1..4 of the table row, in table order
+    tb = gflow.resolve(c[0].args[1], at=c[0], depth=1)
+    row = None          # how the row variable is bound: the target of the loop / comprehension over SRTM30._tiles
+    for n_ in walk_no_nested(g.node):
+        if isinstance(n_, ast.For) and norm(n_.iter).endswith("_tiles"):
+            row = n_.target
+        if isinstance(n_, ast.comprehension) and norm(n_.iter).endswith("_tiles"):
+            row = n_.target
+    if row is None:
+        raise AnalysisError("get_tiles: iteration over SRTM30._tiles not found")
+    pos = {}            # name -> position in the row (or ('rest', first position))
+    def bind(t_, src_pos=None):
+        if isinstance(t_, (ast.Tuple, ast.List)):
+            for i_, e_ in enumerate(t_.elts):
+                if isinstance(e_, ast.Starred) and isinstance(e_.value, ast.Name):
+                    pos[e_.value.id] = ("rest", i_, len(t_.elts) - i_ - 1)
+                elif isinstance(e_, ast.Name):
+                    pos[e_.id] = i_
+    if isinstance(row, ast.Name):
+        un = [st for st in walk_no_nested(g.node) if isinstance(st, ast.Assign) and isinstance(st.targets[0], (ast.Tuple, ast.List)) and norm(st.value) == row.id]
+        if len(un) != 1:
+            raise AnalysisError("get_tiles: the table row is not unpacked once")
+        bind(un[0].targets[0])
+    else:
+        bind(row)
+    ok_tb = False
+    if isinstance(tb, ast.Tuple) and len(tb.elts) == 4 and all(isinstance(e, ast.Name) for e in tb.elts):
+        ok_tb = [pos.get(e.id) for e in tb.elts] == [1, 2, 3, 4]
+    elif isinstance(tb, ast.Call) and dotted(tb.func) in ("tuple", "list") and len(tb.args) == 1 and isinstance(tb.args[0], ast.Name):
+        ok_tb = pos.get(tb.args[0].id) == ("rest", 1, 0)
+    elif isinstance(tb, ast.Name):
+        ok_tb = pos.get(tb.id) == ("rest", 1, 0)
+    elif isinstance(tb, ast.Subscript) and isinstance(row, ast.Name) and norm(tb) == "%s[1:]" % row.id:
+        ok_tb = True
+    else:
+        raise AnalysisError("get_tiles: second rectangle %s of _do_overlap not understood" % norm(tb))
+    ctx.ob("SRTM30.get_tiles.call", ok_roi and ok_tb, "%s  [row positions of the tile rectangle: %s]" % (norm(c[0]), [pos.get(getattr(e, "id", None)) for e in getattr(tb, "elts", [])] or "rest of the row"),
+           "rectangles passed as (lat_min, lon_min, lat_max, lon_max), the tile row unpacked in table order", node=c[0], func=g)
 
 
 def _consts(ctx):
@@ -117,8 +156,13 @@ def rule_consts(ctx):
     if ff:
         kw = {x.arg: norm(x.value).replace('"', "'") for x in ff[0].keywords}
         rs = parent(parent(ff[0]))
-        okt = kw.get("dtype") in ("np.dtype('>i2')", "'>i2'") and isinstance(rs, ast.Call) and norm(rs.func).endswith(".reshape") \
-            and [norm(a) for a in rs.args] == ["SRTM30._tile_height", "SRTM30._tile_width"]
+        okt = False
+        if isinstance(rs, ast.Call) and norm(rs.func).endswith(".reshape"):
+            gfl = Flow(g)
+            shp = [gfl.resolve(a_, at=rs, depth=2) for a_ in rs.args]
+            if len(shp) == 1 and isinstance(shp[0], (ast.Tuple, ast.List)):
+                shp = list(shp[0].elts)
+            okt = kw.get("dtype") in ("np.dtype('>i2')", "'>i2'") and [norm(a_) for a_ in shp] == ["SRTM30._tile_height", "SRTM30._tile_width"]
     ctx.ob("SRTM30.get_tile.read", okt, "%s" % (norm(parent(parent(ff[0])))[:110] if ff else None), "np.fromfile(..., dtype='>i2').reshape(_tile_height, _tile_width)", node=ff[0] if ff else g.node, func=g)
     b = ctx.func(TOPO, "SRTM30.get_bounds")
     okb = [norm(s).replace(" ", "") for s in b.body][-2:] == ["_,lat_min,lon_min,lat_max,lon_max=tile", "return(lat_min,lon_min,lat_max,lon_max)"]
@@ -163,34 +207,59 @@ def rule_orient(ctx):
     if not loop:
         raise AnalysisError("elevation: loop over the tiles not found")
     lp = loop[0]
-    seq = [(norm(st.targets[0]), norm(st.value).replace(" ", "")) for st in lp.body if isinstance(st, ast.Assign)]
-    d = {}
-    for k, v in seq:
-        d.setdefault(k, []).append(v)
-    want_lat = ["np.logical_and(lat_min<=lats,lats<lat_max)", "np.logical_and(lat_min_s<=lats_d,lats_d<lat_max_s)"]
-    want_lon = ["np.logical_and(lon_min<=lons,lons<lon_max)", "np.logical_and(lon_min_s<=lons_d,lons_d<lon_max_s)"]
-    ctx.ob("SRTM30.elevation.masks", d.get("inds_lat") == want_lat and d.get("inds_lon") == want_lon, "inds_lat: %s; inds_lon: %s" % (d.get("inds_lat"), d.get("inds_lon")),
-           "source mask: block bounds on the tile grid; destination mask: tile bounds on the block grid; lower edge inclusive, upper exclusive", node=lp, func=f)
-    comb = "np.logical_and(inds_lat.reshape(-1,1),inds_lon.reshape(1,-1))"
-    store = [norm(st).replace(" ", "") for st in lp.body if isinstance(st, ast.Assign) and isinstance(st.targets[0], ast.Subscript)]
-    ctx.ob("SRTM30.elevation.assign", d.get("inds_s") == [comb] and d.get("inds_d") == [comb] and store == ["elevation[inds_d]=dem[inds_s]"],
-           "inds_s/inds_d = %s / %s; %s" % (d.get("inds_s"), d.get("inds_d"), store), "2-D masks (lat x lon) and elevation[inds_d] = dem[inds_s]", node=lp, func=f)
-    # order of the mask computations: source masks computed before they are overwritten by the destination masks
-    order = [k for k, v in seq if k in ("inds_lat", "inds_lon", "inds_s", "inds_d")]
-    ctx.ob("SRTM30.elevation.order", order == ["inds_lat", "inds_lon", "inds_s", "inds_lat", "inds_lon", "inds_d"], "%s" % order, "source masks combined before the names are reused for the destination", node=lp, func=f)
+    if not isinstance(lp.target, ast.Name):
+        raise AnalysisError("elevation: loop variable is not a name")
+    t = lp.target.id
+    # roles, read from the calls
+    gn = calls_in(f.node, "get_native_grids")
+    gt = calls_in(f.node, "get_tiles")
+    if len(gn) != 1 or len(gt) != 1 or len(gt[0].args) != 4:
+        raise AnalysisError("elevation: get_native_grids / get_tiles calls not found")
+    gst = enclosing_stmt(gn[0])
+    if not (isinstance(gst, ast.Assign) and isinstance(gst.targets[0], ast.Tuple) and len(gst.targets[0].elts) == 2):
+        raise AnalysisError("elevation: native grids are not unpacked into (lats, lons)")
+    LD, OD = [norm(e) for e in gst.targets[0].elts]
+    B = [norm(a_) for a_ in gt[0].args]
+    if not all(isinstance(a_, ast.Name) for a_ in gt[0].args):
+        raise AnalysisError("elevation: block bounds passed to get_tiles are not plain names")
+    stores = [st for st in lp.body if isinstance(st, ast.Assign) and isinstance(st.targets[0], ast.Subscript)]
+    if len(stores) != 1 or not isinstance(stores[0].value, ast.Subscript):
+        raise AnalysisError("elevation: expected one store `block[mask_d] = tile[mask_s]` in the loop")
+    st0 = stores[0]
+    outer = tuple({LD, OD, t} | set(B) | {norm(st0.targets[0].value)})
+    D = flow.resolve(st0.targets[0].slice, at=st0, depth=6, stop=outer)
+    S = flow.resolve(st0.value.slice, at=st0, depth=6, stop=outer)
+    src = flow.resolve(st0.value.value, at=st0, depth=2, stop=outer)
+    G = ["SRTM30.get_grids(%s)[%d]" % (t, k) for k in (0, 1)]
+    T = ["SRTM30.get_bounds(%s)[%d]" % (t, k) for k in range(4)]
+
+    def rect(lo0, x0, hi0, lo1, x1, hi1):
+        return "((%s <= %s) & (%s < %s)).reshape(-1, 1) & ((%s <= %s) & (%s < %s)).reshape(1, -1)" % (lo0, x0, x0, hi0, lo1, x1, x1, hi1)
+    want_s = rect(B[0], G[0], B[2], B[1], G[1], B[3])
+    want_d = rect(T[0], LD, T[2], T[1], OD, T[3])
+    ok_s = norm(S) == want_s
+    ok_d = norm(D) == want_d
+    ctx.ob("SRTM30.elevation.masks", ok_s and ok_d, "source mask: %s; destination mask: %s" % (norm(S)[:160], norm(D)[:160]),
+           "source mask: block bounds on the tile grid; destination mask: tile bounds on the block grid; lower edge inclusive, upper exclusive; "
+           "latitude along axis 0, longitude along axis 1", node=st0, func=f)
+    blk = norm(st0.targets[0].value)
+    rets = [r_ for r_ in flow.stmts if isinstance(r_, ast.Return)]
+    ok_a = norm(src) == "SRTM30.get_tile(%s)" % t and bool(rets) and isinstance(rets[-1].value, ast.Tuple) \
+        and [norm(e) for e in rets[-1].value.elts] == [LD, OD, blk]
+    ctx.ob("SRTM30.elevation.assign", ok_a, "%s with tile = %s; returns %s" % (norm(st0)[:60], norm(src), norm(rets[-1].value) if rets else None),
+           "block[mask_d] = SRTM30.get_tile(t)[mask_s]; (lats, lons, block) returned", node=st0, func=f)
     # every tile is processed: nothing leaves the loop early
     jumps = [norm(n) for n in walk_no_nested(lp) if isinstance(n, (ast.Break, ast.Continue, ast.Return))]
-    ctx.ob("SRTM30.elevation.all_tiles", not jumps and norm(lp.iter) == "tiles", "loop over %s; early exits: %s" % (norm(lp.iter), jumps or "none"),
+    it = flow.resolve(lp.iter, at=lp, depth=1)
+    ctx.ob("SRTM30.elevation.all_tiles", not jumps and norm(it) == norm(gt[0]), "loop over %s; early exits: %s" % (norm(lp.iter), jumps or "none"),
            "every tile named by get_tiles contributes its part of the block (no break / continue)", node=lp, func=f)
     # snapped bounds and inputs of the loop
-    pre = {norm(st.targets[0]): norm(st.value).replace(" ", "") for st in f.body if isinstance(st, ast.Assign) and isinstance(st.targets[0], ast.Name)}
-    okp = pre.get("lat_min") == "lats_d.min()-0.5*SRTM30._dlat" and pre.get("lat_max") == "lats_d.max()+0.5*SRTM30._dlat" \
-        and pre.get("lon_min") == "lons_d.min()-0.5*SRTM30._dlon" and pre.get("lon_max") == "lons_d.max()+0.5*SRTM30._dlon" \
-        and pre.get("tiles") == "SRTM30.get_tiles(lat_min,lon_min,lat_max,lon_max)" and pre.get("elevation") == "np.zeros(lats_d.shape+lons_d.shape)"
-    un = [st for st in lp.body if isinstance(st, ast.Assign) and isinstance(st.targets[0], ast.Tuple)]
-    okp = okp and [norm(s).replace(" ", "") for s in un] == ["lats,lons=SRTM30.get_grids(t)", "lat_min_s,lon_min_s,lat_max_s,lon_max_s=SRTM30.get_bounds(t)"]
-    ctx.ob("SRTM30.elevation.block", okp, "block bounds: %s" % {k: pre.get(k) for k in ("lat_min", "lat_max", "lon_min", "lon_max")},
-           "block bounds = outer cell edges of the native grid (centre -/+ half a cell); tiles, grids and bounds of the same tile t", node=f.node, func=f)
+    bv = [norm(flow.resolve(a_, at=gt[0], depth=2, stop=(LD, OD))).replace(" ", "") for a_ in gt[0].args]
+    want_b = ["np.min(%s)-0.5*SRTM30._dlat" % LD, "np.min(%s)-0.5*SRTM30._dlon" % OD, "np.max(%s)+0.5*SRTM30._dlat" % LD, "np.max(%s)+0.5*SRTM30._dlon" % OD]
+    bdef = [d_ for d_ in flow.defs(blk, lp) if d_ != "param" and not any(d_ is x for x in ast.walk(lp))]
+    okp = bv == want_b and len(bdef) == 1 and norm(bdef[0].value).replace(" ", "") == "np.zeros(%s.shape+%s.shape)" % (LD, OD)
+    ctx.ob("SRTM30.elevation.block", okp, "block bounds: %s; block = %s" % (bv, norm(bdef[0].value) if len(bdef) == 1 else None),
+           "block bounds = outer cell edges of the native grid (centre -/+ half a cell); block of shape lats x lons, zero filled", node=gt[0], func=f)
 
 
 def rule_cover(ctx):
@@ -201,18 +270,64 @@ def rule_cover(ctx):
     ar = [c for c in calls_in(f.node, "arange")]
     if len(ar) != 2:
         raise AnalysisError("get_native_grids: expected two np.arange(...) index ranges")
-    # which arange belongs to latitude / longitude: by the statement that uses it
-    lat_ar = [c for c in ar if "lat" in norm(enclosing_stmt(c).targets[0] if isinstance(enclosing_stmt(c), ast.Assign) else enclosing_stmt(c).target)]
-    lon_ar = [c for c in ar if c not in lat_ar]
+    # which arange belongs to latitude / longitude: by the returned grid it flows into
+    flow = Flow(f)
+    rets = [r_ for r_ in flow.stmts if isinstance(r_, ast.Return)]
+    if len(rets) != 1 or not isinstance(rets[0].value, ast.Tuple) or len(rets[0].value.elts) != 2:
+        raise AnalysisError("get_native_grids: does not return (lat_grid, lon_grid)")
+
+    def feeds(expr):
+        seen, todo = set(), [n_.id for n_ in ast.walk(expr) if isinstance(n_, ast.Name)]
+        while todo:
+            nm = todo.pop()
+            if nm in seen:
+                continue
+            seen.add(nm)
+            for st in flow.stmts:
+                tg = st.targets[0] if isinstance(st, ast.Assign) else (st.target if isinstance(st, ast.AugAssign) else None)
+                if isinstance(tg, ast.Name) and tg.id == nm:
+                    todo.extend(n_.id for n_ in ast.walk(st.value) if isinstance(n_, ast.Name))
+        return seen
+
+    def target_of(c_):
+        st = enclosing_stmt(c_)
+        tg = st.targets[0] if isinstance(st, ast.Assign) else (st.target if isinstance(st, ast.AugAssign) else None)
+        return tg.id if isinstance(tg, ast.Name) else None
+    f_lat, f_lon = feeds(rets[0].value.elts[0]), feeds(rets[0].value.elts[1])
+    lat_ar = [c_ for c_ in ar if target_of(c_) in f_lat and target_of(c_) not in f_lon]
+    lon_ar = [c_ for c_ in ar if target_of(c_) in f_lon and target_of(c_) not in f_lat]
     if len(lat_ar) != 1 or len(lon_ar) != 1:
         raise AnalysisError("get_native_grids: cannot attribute the index ranges to the axes")
-    # lattice phase of the grids
     st_lat = enclosing_stmt(lat_ar[0])
-    lat_ok = norm(st_lat.value).replace(" ", "") == "90+0.5*SRTM30._dlat-%s*SRTM30._dlat" % norm(lat_ar[0]).replace(" ", "")
     st_lon = enclosing_stmt(lon_ar[0])
-    lon0 = [st for st in f.body if isinstance(st, ast.Assign) and norm(st.targets[0]) == "lon_grid"]
-    lon_ok = bool(lon0) and norm(lon0[0].value).replace(" ", "") == "-180+0.5*SRTM30._dlon" and isinstance(st_lon, ast.AugAssign) and isinstance(st_lon.op, ast.Add) \
-        and norm(st_lon.value).replace(" ", "") == "%s*SRTM30._dlon" % norm(lon_ar[0]).replace(" ", "")
+    # lattice phase of the grids: closed form of each returned grid with the index range replaced by a symbol k
+    from ..flow import straight_env
+    closed = straight_env(f.node)
+
+    def phase(elt, d_name, d_val):
+        e_ = closed.get(elt.id) if isinstance(elt, ast.Name) else elt
+        if e_ is None:
+            raise AnalysisError("get_native_grids: no closed form for the returned grid %s" % norm(elt))
+        cnt = [0]
+
+        class R_(ast.NodeTransformer):
+            def visit_Call(self, n_):
+                if (dotted(n_.func) or "").split(".")[-1] == "arange":
+                    cnt[0] += 1
+                    return ast.Name(id="_k_", ctx=ast.Load())
+                return self.generic_visit(n_)
+        from ..core import clone
+        e2 = R_().visit(clone(e_))
+        if cnt[0] != 1:
+            raise AnalysisError("get_native_grids: grid %s is not built from one index range" % norm(elt))
+        out = []
+        for kk in (0, 1, 5):
+            out.append(Rat({"_k_": Fraction(kk), d_name: d_val}).ev(e2))
+        return out
+    pl = phase(rets[0].value.elts[0], "SRTM30._dlat", d_lat)
+    lat_ok = pl == [90 + d_lat / 2, 90 + d_lat / 2 - d_lat, 90 + d_lat / 2 - 5 * d_lat]
+    po = phase(rets[0].value.elts[1], "SRTM30._dlon", d_lon)
+    lon_ok = po == [-180 + d_lon / 2, -180 + d_lon / 2 + d_lon, -180 + d_lon / 2 + 5 * d_lon]
     den = 8 if ctx.tier == "thorough" else 4
     fr = [Fraction(k_, den) for k_ in range(den)]
     pts = [Fraction(n) + x for n in range(2, 8 if ctx.tier == "thorough" else 6) for x in fr]
@@ -251,9 +366,9 @@ def rule_cover(ctx):
 def rule_lonnorm(ctx):
     ctx.rule("C20.lonnorm", "T4b", "get_tiles: the longitude normalisation is the identity on [-180, 180) for the west and on (-180, 180] for the east edge")
     f = ctx.func(TOPO, "SRTM30.get_tiles")
-    loop = [st for st in f.body if isinstance(st, ast.For)]
+    loop = [st for st in f.body if calls_in(st, "_do_overlap")]
     if not loop:
-        raise AnalysisError("get_tiles: loop over the tiles not found")
+        raise AnalysisError("get_tiles: the statement that tests the tiles with _do_overlap was not found")
     vals = [Fraction(x) for x in range(-180, 181, 20)] + [Fraction(-1799, 10), Fraction(1799, 10), Fraction(1, 2), Fraction(-1, 2)]
     bad_w = bad_e = None
     for x in vals:
